@@ -203,7 +203,7 @@ def lazy_backend_scripts(rng, tier):
 def run(tier, seed, replay):
     kws = [dict(sessions=True), dict(sessions=True, events=True), dict(sessions=True, nclients=3, track=True), dict(sessions=True, auth="proto", nclients=2, events=True),
            dict(sessions=True, events=True, quick_reconnect=0.5, weights=dict(session=0.8)), dict(sessions=True, quick_reconnect=0.5, nclients=2, weights=dict(session=0.8))]
-    return sim_check("C09", tier, seed, kws, n_quick=120, n_thorough=12000, oracle_props={"C09", "C01", "C02", "C03"},
+    return sim_check("C09", tier, seed, kws, n_quick=120, n_thorough=12000, oracle_props={"C09", "C01", "C02", "C03"}, known_ids=("D32",),
                      custom_scripts=lambda rng, tier: injected(rng, tier) + stopped_world_scripts(rng, tier) + buffered_at_disconnect_scripts(rng, tier),
                      impl_only_scripts=lazy_backend_scripts, impl_only_label="a backend that collects outgoing messages a frame late while another client disconnects",
                      rule_extra=", plus crash-point enumeration: a disconnect/reconnect or a server stop/start injected at every frame boundary of base scenarios, reconnect after one frame",
